@@ -39,7 +39,7 @@ pub const FAULT_TOKENS: [&str; 24] = [
 ];
 
 /// Module kinds for module histories through one Compiler.
-pub const MODULE_KINDS: [(&str, &str); 8] = [
+pub const MODULE_KINDS: [(&str, &str); 12] = [
 	("print", "fn {f}()\n{\n\tprint!(\"a\");\n}\n"),
 	("format", "fn {f}()\n{\n\tvar x: i32 = 7;\n\tvar n: usize = len_of(format!(\"a\", x));\n}\nfn len_of(text: []char8) -> usize\n{\n\treturn: |text|\n}\n"),
 	("abort", "fn {f}(x: i32)\n{\n\tif x == 0\n\t{\n\t\tabort!();\n\t}\n}\n"),
@@ -48,6 +48,11 @@ pub const MODULE_KINDS: [(&str, &str); 8] = [
 	("private helper", "fn helper() -> i32\n{\n\treturn: 1\n}\nfn {f}() -> i32\n{\n\tvar r: i32 = helper();\n\treturn: r\n}\n"),
 	("private constant", "const K: i32 = 7;\nfn {f}() -> i32\n{\n\treturn: K\n}\n"),
 	("empty function", "fn {f}()\n{\n}\n"),
+	// the same externally visible name in several modules of one compilation
+	("pub fn shared", "pub fn shared() -> i32\n{\n\treturn: 1\n}\nfn {f}()\n{\n}\n"),
+	("pub extern fn shared with a body", "pub extern fn shared() -> i32\n{\n\treturn: 2\n}\nfn {f}()\n{\n}\n"),
+	("pub extern head", "pub extern fn abs(x: i32) -> i32;\nfn {f}() -> i32\n{\n\treturn: abs(-1)\n}\n"),
+	("fn main", "fn main() -> u8\n{\n\treturn: 0\n}\nfn {f}()\n{\n}\n"),
 ];
 
 pub fn drive(d: &mut Driver)
@@ -214,8 +219,66 @@ pub fn drive(d: &mut Driver)
 	d.bound("type terms x declaration positions (C11's legality space)", json!(ncells));
 	let jobs: Vec<Value> = (0..ncells).step_by(24).map(|lo| json!({"space": "legality", "lo": lo, "hi": (lo + 24).min(ncells)})).collect();
 	d.phase("type terms in every declaration position", jobs);
+	// (h) calls of the built-in functions: every name x every list of up to two arguments x every
+	// place a call can stand in
+	let nb = builtin_programs().len();
+	d.bound("built-in calls: names x argument lists (0-2 of 10 forms) x contexts", json!({"names": BUILTIN_NAMES, "argument forms": BUILTIN_ARGS.iter().map(|a| a.0).collect::<Vec<_>>(), "contexts": BUILTIN_CONTEXTS.iter().map(|c| c.0).collect::<Vec<_>>(), "programs": nb}));
+	let jobs: Vec<Value> = (0..nb).step_by(64).map(|lo| json!({"space": "builtins", "lo": lo, "hi": (lo + 64).min(nb)})).collect();
+	d.phase("calls of the built-in functions", jobs);
 	d.assume("termination is bounded by a 20 s per-case watchdog; the nesting bound of the property (256) is applied on a release-profile worker with the 8 MiB main-thread stack of the real binary");
 	d.assume("inputs beyond the bounds (the property's 64 KiB texts, random token soup) are not explored");
+}
+
+pub const BUILTIN_NAMES: [&str; 10] = ["abort!", "format!", "file!", "line!", "print!", "eprint!", "dbg!", "panic!", "include_bytes!", "nosuchbuiltin!"];
+/// (name, expression)
+pub const BUILTIN_ARGS: [(&str, &str); 10] = [
+	("integer literal", "1"),
+	("string literal", "\"a\""),
+	("integer variable", "x"),
+	("call without return value", "g()"),
+	("call with return value", "h()"),
+	("nested format!", "format!(\"b\", x)"),
+	("address", "&x"),
+	("array variable", "arr"),
+	("structure variable", "s"),
+	("view parameter", "text"),
+];
+/// (name, statement with {} for the call)
+pub const BUILTIN_CONTEXTS: [(&str, &str); 6] = [
+	("statement", "\t{};\n"),
+	("untyped initialiser", "\tvar r = {};\n"),
+	("initialiser of a view of characters", "\tvar r: []char8 = {};\n"),
+	("argument of print!", "\tprint!({});\n"),
+	("argument of a function", "\tignore({});\n"),
+	("operand of a length", "\tvar n: usize = |{}|;\n"),
+];
+
+pub fn builtin_programs() -> Vec<(String, String)>
+{
+	let mut out = Vec::new();
+	let mut arglists: Vec<(String, String)> = vec![("no arguments".to_string(), String::new())];
+	for (n1, a1) in BUILTIN_ARGS
+	{
+		arglists.push((n1.to_string(), a1.to_string()));
+		for (n2, a2) in BUILTIN_ARGS
+		{
+			arglists.push((format!("{n1}, {n2}"), format!("{a1}, {a2}")));
+		}
+	}
+	for name in BUILTIN_NAMES
+	{
+		for (argname, args) in &arglists
+		{
+			for (cname, ctx) in BUILTIN_CONTEXTS
+			{
+				let call = format!("{name}({args})");
+				let stmt = ctx.replace("{}", &call);
+				let text = format!("struct S\n{{\n\ta: i32,\n}}\nfn g()\n{{\n}}\nfn h() -> i32\n{{\n\treturn: 1\n}}\nfn ignore(v: i32)\n{{\n}}\nfn f(text: []char8)\n{{\n\tvar x: i32 = 1;\n\tvar arr: [2]i32 = [1, 2];\n\tvar s: S = S {{ a: 1 }};\n{stmt}}}\n");
+				out.push((format!("{name} with {argname} as {cname}"), text));
+			}
+		}
+	}
+	out
 }
 
 /// (name, prefix, opening unit, innermost, closing unit, suffix)
@@ -487,6 +550,17 @@ pub fn work(spec: &Value, w: &mut WorkerCtx)
 					w.result.transitions += 1;
 					judge(&[("m.pn".to_string(), text.clone())], || json!({"text": text, "sig_hint": "type term in a declaration position"}), w);
 				}
+			}
+		}
+		"builtins" =>
+		{
+			let programs = builtin_programs();
+			for i in spec["lo"].as_u64().unwrap() as usize..spec["hi"].as_u64().unwrap() as usize
+			{
+				let (what, text) = &programs[i];
+				w.result.transitions += 1;
+				let name = what.split(' ').next().unwrap_or("").to_string();
+				judge(&[("m.pn".to_string(), text.clone())], || json!({"text": text, "what": what, "sig_hint": format!("built-in {name}")}), w);
 			}
 		}
 		"bodies04" | "bodies05" | "trees06" =>
